@@ -71,6 +71,10 @@ func SchemaFor(c Case) (string, bool) {
 	if c.Rule == "integer" {
 		return "1", true
 	}
+	if c.Rule == "ap-integer" {
+		// the other place where a numeral "counts as integer": the declared kind of additional properties
+		return `{} // {additionalProperties: "integer"}`, true
+	}
 	if c.Rule == "precision" {
 		return "0.5 // {precision: " + c.M + "}", true
 	}
@@ -105,7 +109,7 @@ func want(c Case) (accept, judged bool) {
 		panic("harness bug: N is not a numeral: " + c.N)
 	}
 	switch c.Rule {
-	case "integer":
+	case "integer", "ap-integer":
 		isInt, disputed := ref.NumberIsInteger(c.N)
 		return isInt, !disputed
 	case "precision":
@@ -174,7 +178,11 @@ func check(t run.TB, c Case, cache schemaCache) (judged, accepted bool) {
 		run.Excluded("unspecified:d.000-spelling-or-int-vs-float-equality")
 		return false, false
 	}
-	r := lib.Validate(s, []byte(c.N))
+	docText := c.N
+	if c.Rule == "ap-integer" {
+		docText = `{"k":` + c.N + `}`
+	}
+	r := lib.Validate(s, []byte(docText))
 	if r.Panic != "" {
 		run.Fail(t, chk, c, "Validate panicked: %s", r.Panic)
 	}
@@ -191,7 +199,7 @@ func check(t run.TB, c Case, cache schemaCache) (judged, accepted bool) {
 }
 
 func nontrivial(c Case) bool {
-	if c.Rule == "integer" || c.Rule == "precision" {
+	if c.Rule == "integer" || c.Rule == "precision" || c.Rule == "ap-integer" {
 		return strings.ContainsAny(c.N, ".eE")
 	}
 	m, ok1 := ref.ParseDecimal(c.M)
@@ -262,12 +270,14 @@ func TestExhaustivePairs(t *testing.T) {
 			continue
 		}
 		one(Case{Rule: "integer", N: nn})
+		one(Case{Rule: "ap-integer", N: nn})
+		one(Case{Rule: "ap-integer", N: nn}) // twice: the classification must not vary between calls
 		for _, p := range []string{"1", "2", "3"} {
 			one(Case{Rule: "precision", M: p, N: nn})
 		}
 	}
 	run.LabelN("exhaustive-cases", n)
-	run.Exhaustive(chk, fmt.Sprintf("all RFC 8259 numerals of <=%d characters over -0159.eE+ (%d numerals): every exponent-free one as rule parameter x every one as document x {min,max,exclusive min/max,enum,const}; all numerals of <=%d characters (%d) as documents against %d pivot parameters, the integer example and precision 1..3", shortLen, len(short), longLen, len(long), len(pivots)))
+	run.Exhaustive(chk, fmt.Sprintf("all RFC 8259 numerals of <=%d characters over -0159.eE+ (%d numerals): every exponent-free one as rule parameter x every one as document x {min,max,exclusive min/max,enum,const}; all numerals of <=%d characters (%d) as documents against %d pivot parameters, the integer example, additionalProperties: \"integer\" and precision 1..3", shortLen, len(short), longLen, len(long), len(pivots)))
 }
 
 func TestRandomPairs(t *testing.T) {
@@ -287,7 +297,7 @@ func TestRandomPairs(t *testing.T) {
 				m = "-" + m
 			}
 		}
-		rule := rapid.SampledFrom([]string{"min", "max", "xmin", "xmax", "enum", "const", "integer", "precision"}).Draw(t, "rule")
+		rule := rapid.SampledFrom([]string{"min", "max", "xmin", "xmax", "enum", "const", "integer", "precision", "ap-integer"}).Draw(t, "rule")
 		if rule == "precision" {
 			m = fmt.Sprint(rapid.IntRange(1, 40).Draw(t, "p"))
 		}
@@ -295,7 +305,7 @@ func TestRandomPairs(t *testing.T) {
 		k := rapid.IntRange(1, 8).Draw(t, "k")
 		for i := 0; i < k; i++ {
 			var n, kind string
-			if rule == "integer" || rule == "precision" || rapid.IntRange(0, 3).Draw(t, "fresh") == 0 {
+			if rule == "integer" || rule == "ap-integer" || rule == "precision" || rapid.IntRange(0, 3).Draw(t, "fresh") == 0 {
 				n, kind = num.Random(t, maxDigits, rapid.SampledFrom([]int{3, 30, 400}).Draw(t, "maxExp"), true, "n"), "random"
 				if rapid.Bool().Draw(t, "respellFresh") {
 					n, kind = num.Respell(t, n, true, "rs")
